@@ -166,6 +166,11 @@ func sampleTyped(rng *rand.Rand, pkg CorpusPkg, mode Mode, i int) CScenario {
 					c.Fault = &Fault{Kind: "cancel", At: 1 + rng.Intn(40)}
 				}
 			case ModeC15:
+				if sc.Prefix != "" && rng.Intn(12) == 0 {
+					// the request line glues the rest of the path onto the mount prefix: outside the mount, 404
+					c.Fault = &Fault{Kind: "mangle", Arg: "path:glue", Val: sc.Prefix}
+					break
+				}
 				switch rng.Intn(14) {
 				case 10, 11, 12:
 					c.Fault = sampleMangle(rng, []string{fmt.Sprintf("query#%d", rng.Intn(120)), fmt.Sprintf("query#%d", rng.Intn(120)), fmt.Sprintf("header#%d", rng.Intn(12)), fmt.Sprintf("cookie#%d", rng.Intn(6)), fmt.Sprintf("path:%d", rng.Intn(6))})
